@@ -13,26 +13,30 @@ Definition emit_bg (cp : caps) (pen n : style) : list tok :=
 Definition emit_ul (cp : caps) (pen n : style) : list tok :=
   if cap_styled_ul cp then (if s_ul pen =? s_ul n then [] else [KUl (col_params cp (s_ul n))]) else [].
 
-Definition turned_on (pen n : style) (bit : Z) : bool := has (s_attr n) bit && negb (has (s_attr pen) bit).
-Definition turned_off (pen n : style) (bit : Z) : bool := has (s_attr pen) bit && negb (has (s_attr n) bit).
+(* SGR codes that take attribute mask [a] to mask [b] (uint8 AttributeMask values) *)
+Definition turned_on (a b bit : Z) : bool := has b bit && negb (has a bit).
+Definition turned_off (a b bit : Z) : bool := has a bit && negb (has b bit).
+Definition whenz (c : bool) (l : list Z) : list Z := if c then l else [].
 Definition when (b : bool) (l : list tok) : list tok := if b then l else [].
 
-Definition emit_attr (pen n : style) : list tok :=
-  if s_attr pen =? s_attr n then [] else
-    when (turned_on pen n attr_bold) [KSgr 1] ++
-    when (turned_on pen n attr_dim) [KSgr 2] ++
-    when (turned_on pen n attr_italic) [KSgr 3] ++
-    when (turned_on pen n attr_blink) [KSgr 5] ++
-    when (turned_on pen n attr_reverse) [KSgr 7] ++
-    when (turned_on pen n attr_invisible) [KSgr 8] ++
-    when (turned_on pen n attr_strike) [KSgr 9] ++
-    when (turned_off pen n attr_bold) (KSgr 22 :: when (has (s_attr n) attr_dim) [KSgr 2]) ++
-    when (turned_off pen n attr_dim) (KSgr 22 :: when (has (s_attr n) attr_bold) [KSgr 1]) ++
-    when (turned_off pen n attr_italic) [KSgr 23] ++
-    when (turned_off pen n attr_blink) [KSgr 25] ++
-    when (turned_off pen n attr_reverse) [KSgr 27] ++
-    when (turned_off pen n attr_invisible) [KSgr 28] ++
-    when (turned_off pen n attr_strike) [KSgr 29].
+Definition attr_codes (a b : Z) : list Z :=
+  if a =? b then [] else
+    whenz (turned_on a b attr_bold) [1] ++
+    whenz (turned_on a b attr_dim) [2] ++
+    whenz (turned_on a b attr_italic) [3] ++
+    whenz (turned_on a b attr_blink) [5] ++
+    whenz (turned_on a b attr_reverse) [7] ++
+    whenz (turned_on a b attr_invisible) [8] ++
+    whenz (turned_on a b attr_strike) [9] ++
+    whenz (turned_off a b attr_bold) (22 :: whenz (has b attr_dim) [2]) ++
+    whenz (turned_off a b attr_dim) (22 :: whenz (has b attr_bold) [1]) ++
+    whenz (turned_off a b attr_italic) [23] ++
+    whenz (turned_off a b attr_blink) [25] ++
+    whenz (turned_off a b attr_reverse) [27] ++
+    whenz (turned_off a b attr_invisible) [28] ++
+    whenz (turned_off a b attr_strike) [29].
+
+Definition emit_attr (pen n : style) : list tok := map KSgr (attr_codes (s_attr pen) (s_attr n)).
 
 Definition emit_uls (cp : caps) (pen n : style) : list tok :=
   if s_uls pen =? s_uls n then []
